@@ -97,6 +97,7 @@ type verifC05world struct {
 // per path), and signs the single-owner chunk with the real code.
 func verifC05setup() *verifC05world {
 	crypto.VerifC05Reset()
+	cac.VerifC05Samples = nil // keccak model of the content-address hash
 	w := &verifC05world{}
 	w.owner = zzverif.BytesN("owner", crypto.AddressSize)
 	w.other = zzverif.BytesN("other", crypto.AddressSize)
@@ -201,6 +202,7 @@ func VerifC05_Mutation() {
 // panic.
 func VerifC05_Malformed() {
 	crypto.VerifC05Reset()
+	cac.VerifC05Samples = nil // keccak model of the content-address hash
 	other := zzverif.BytesN("other", crypto.AddressSize)
 	crypto.VerifC05RegisterKey(verifC05otherKey, other)
 	crypto.VerifC05OtherKey = verifC05otherKey
